@@ -93,9 +93,59 @@ def transcription_nested(size, strict):
                bounds=dict(ref=n, est=m), timeout_s=1500)
 
 
+def match_events_mono(n, m):
+    """hit count of util.match_events is monotone in the window, items supplied in any order"""
+    import mir_eval.util as U
+
+    def build(ctx):
+        ref = C.events(ctx, 'r', n, sort=False)
+        est = C.events(ctx, 'e', m, sort=False)
+        w1 = T.posreal(ctx, 'w1')
+        w2 = ctx.real('w2')
+        ctx.assume(w2 >= w1)
+        return dict(ref=ref, est=est, w1=w1, w2=w2)
+
+    def body(A, inp):
+        k1 = len(U.match_events(inp['ref'], inp['est'], inp['w1']))
+        k2 = len(U.match_events(inp['ref'], inp['est'], inp['w2']))
+        A.observe('hits', (k1, k2))
+        A.require(k1 <= k2, 'util.match_events:hits-non-decreasing-in-window')
+    return Job('C07', 'util.match_events[%dx%d,any order,window]' % (n, m), build, body, funcs=['util.match_events', 'util._fast_hit_windows', 'util._bipartite_match'],
+               bounds=dict(ref=n, est=m), timeout_s=1500)
+
+
+def multipitch_frame_mono(nf):
+    """multipitch.metrics with nf frequencies per frame (any order): P/R/Acc monotone in the window, raw <= chroma"""
+    spec = T.by_name('multipitch.metrics')
+
+    def build(ctx):
+        d = T.b_multipitch(nf)(ctx, (1, 1))
+        # same time base: no resampling, one frame
+        d['est'] = (d['ref'][0].copy(), d['est'][1])
+        w2 = ctx.real('window_looser')
+        ctx.assume(w2 >= d['kw']['window'])
+        ctx.assume(w2 <= 6)
+        d['t2'] = w2
+        return d
+
+    def body(A, inp):
+        r1 = spec.call(inp)
+        r2 = spec.call(inp, kw={'window': inp['t2']})
+        for i in (0, 1, 2, 7, 8, 9):
+            A.observe(spec.outs[i][0], r1[i])
+            A.require(A.le(r1[i], r2[i]), 'multipitch.%s:non-decreasing-in-window' % spec.outs[i][0])
+        for i, j in ((0, 7), (1, 8), (2, 9)):
+            A.require(A.le(r1[i], r1[j]), 'multipitch:%s<=%s' % (spec.outs[i][0], spec.outs[j][0]))
+    return Job('C07', 'multipitch.metrics[1 frame,%dx%d frequencies,window]' % (nf, nf), build, body, funcs=spec.funcs, exact_floats=False,
+               bounds=dict(freqs=nf), timeout_s=1800)
+
+
 def jobs(tier):
     q = tier == 'quick'
     js = []
+    for (n, m) in ([(2, 2)] if q else [(2, 2), (2, 3), (3, 3)]):
+        js.append(match_events_mono(n, m))
+    js.append(multipitch_frame_mono(2))
     for spec in T.SPECS:
         if 'C07' in spec.skip:
             continue
